@@ -16,6 +16,8 @@ from .. import sched
 from ..core import CaseTimeout
 from ..core import HarnessFault
 from ..core import Res
+from ..fingerprint import digest
+from ..fingerprint import fingerprint
 
 ID = 'C18'
 LEVEL = 'model_checking'
@@ -25,7 +27,7 @@ MANIFEST = {
                  'granularity inside the package with at most c preemptions '
                  '(iterative preemption bounding, CHESS scheme); per-thread '
                  'results compared with sequential runs',
-    'text': 'For 14 templates (one per block tag, incl. sort_expr with '
+    'text': 'For 16 templates (one per block tag, incl. sort_expr with '
             'per-thread keys, batched in, try/raise, tree) two real threads '
             'render the same template object with thread-specific '
             'namespaces under a scheduler that owns every line event in '
@@ -35,7 +37,11 @@ MANIFEST = {
             'the templates that write shared objects (thorough); compile '
             'race (COOKLOCK replaced by a scheduler lock; blocked = '
             'disabled, nothing enabled = deadlock), plus 3 threads with <= '
-            '1 preemption.  Every thread must obtain exactly its '
+            '1 preemption (steady).  In the compile family a state invariant '
+            'is evaluated at every scheduling point of every execution: a '
+            'template marked as compiled holds the completely compiled block '
+            'list (what a further thread arriving at that moment would '
+            'render).  Every thread must obtain exactly its '
             'sequential result.',
     'note': 'Trusted: dtmc/sched.py (baton scheduler; replay of a schedule '
             'must reproduce the same point sequence or the run is a harness '
@@ -108,6 +114,9 @@ TEMPLATES = {
     'inbatch': '<dtml-in seq size=2 start=st orphan=0><dtml-var k>'
                '<dtml-if next-sequence>+<dtml-var '
                'next-sequence-start-number></dtml-if>,</dtml-in>',
+    'inbatchsortexpr': '<dtml-in seq sort_expr="sk" size=3 start=1 '
+                       'orphan=0><dtml-var k><dtml-var j>,</dtml-in>',
+    'tiny': 'a<dtml-var x>b',
     'with': '<dtml-with o><dtml-var x></dtml-with><dtml-with "m" mapping>'
             '<dtml-var x></dtml-with>',
     'let': '<dtml-let z=x w="y"><dtml-var z><dtml-var w></dtml-let>',
@@ -124,7 +133,8 @@ TEMPLATES = {
 TEMPLATES['raise'] = ('<dtml-try><dtml-raise type="KeyError">r<dtml-var x>'
                       '</dtml-raise><dtml-except KeyError>R'
                       '<dtml-var error_value></dtml-try>')
-WRITERS = ('insortexpr', 'insort', 'inbatch', 'expr', 'if', 'tree')
+WRITERS = ('insortexpr', 'inbatchsortexpr', 'insort', 'inbatch', 'expr',
+           'if', 'tree')
 
 
 def namespace(name, i):
@@ -230,11 +240,38 @@ def cases(tier):
 def make_bodies_factory(name, fam, nthreads):
     from DocumentTemplate import HTML
 
+    ref = HTML(TEMPLATES[name])
+    ref.cook()
+    ref_digest = digest(fingerprint(ref._v_blocks))
+
     def make():
         t = HTML(TEMPLATES[name])
         if fam == 'steady':
             t.cook()
         nss = [namespace(name, i) for i in range(nthreads)]
+        seen = {}
+
+        def observer(i, loc):
+            # state invariant: a template that is marked as compiled holds
+            # the completely compiled block list -- what any other thread
+            # entering __call__ at this moment would render
+            d = t.__dict__
+            if '_v_cooked' not in d:
+                return None
+            blocks = d.get('_v_blocks')
+            key = (id(blocks), len(blocks) if blocks is not None else -1)
+            if key not in seen:
+                seen.clear()
+                try:
+                    seen[key] = blocks is not None and \
+                        digest(fingerprint(blocks)) == ref_digest
+                except Exception:
+                    seen[key] = False
+            if not seen[key]:
+                return 'marked compiled but %d of %d blocks present' % (
+                    key[1], len(ref._v_blocks))
+            return None
+        make.observer = observer
         return [lambda i=i: t(**nss[i]) for i in range(nthreads)]
     return make
 
@@ -248,8 +285,9 @@ def first_switch(exe):
 
 
 def run_schedule(name, fam, nthreads, choices, lock):
-    exe = sched.Execution(make_bodies_factory(name, fam, nthreads)(),
-                          choices, prefixes(), LOCAL)
+    make = make_bodies_factory(name, fam, nthreads)
+    exe = sched.Execution(make(), choices, prefixes(), LOCAL)
+    exe.on_point = make.observer
     lock.bind(exe)
     try:
         exe.run()
@@ -265,6 +303,16 @@ def judge(res, case, exe, base, choices):
     if exe.error is not None:
         res.violate('harness', 'harness:%s' % type(exe.error).__name__,
                     {'error': repr(exe.error)}, sub)
+        return
+    if exe.invariant_violation is not None:
+        i, loc, bad = exe.invariant_violation
+        res.violate('no-partially-compiled-template',
+                    'partial-compile:%s:%s' % (name, '%s.%s' % (
+                        loc[0].replace('.py', ''), loc[2] if len(loc) > 2
+                        else loc[1])),
+                    {'thread': i, 'at': list(loc), 'what': bad,
+                     'switches': exe.switches()[:6],
+                     'template': TEMPLATES[name]}, sub)
         return
     if exe.deadlock:
         res.violate('no-deadlock', 'deadlock:%s:%s' % (name, case['fam']),
@@ -322,6 +370,7 @@ def run(case):
 
         class Bound(orig):
             def run(self, timeout=60.0):
+                self.on_point = make.observer
                 lock.bind(self)
                 try:
                     return orig.run(self, timeout)
@@ -330,7 +379,8 @@ def run(case):
         sched.Execution = Bound
         try:
             return sched.explore(make, case['bound'], prefixes(), LOCAL,
-                                 check, shard=tuple(case['shard']))
+                                 check, shard=tuple(case['shard']),
+                                 preempt_files=case.get('sites'))
         finally:
             sched.Execution = orig
     stats = patched_explore()
@@ -371,5 +421,6 @@ def finalize(tier, agg):
                                     'var, if, insortexpr, with, try') + (
                                     '; c=2 for %s (steady) and insortexpr, '
                                     'var (compile); 3 threads c=1 for 4 '
-                                    'templates' % ', '.join(WRITERS)
+                                    'templates (steady)'
+                                    % ', '.join(WRITERS)
                                     if tier == 'thorough' else '')}
